@@ -23,21 +23,32 @@ class Sim:
     def __init__(self, kinds):
         self.K = kinds; self.nv = len(kinds); self.v = [None] * self.nv      # None dead, 0 null, k>0 object id+1
         self.nobj = 0
+        self.baseonly = {}     # object -> its dynamic type is Base (only B handles may hold it)
+        self.status = {}       # object -> "owned" | "orphan" (left alive by a no-delete handle) | "dead"
     def cnt(self, p): return sum(1 for x in self.v if x == p)
     def live(self): return [i for i in range(self.nv) if self.v[i] is not None]
     def dead(self): return [i for i in range(self.nv) if self.v[i] is None]
-    def fresh(self): self.nobj += 1; return self.nobj
+    def fresh(self, baseonly=False):
+        self.nobj += 1; self.baseonly[self.nobj] = baseonly; self.status[self.nobj] = "owned"; return self.nobj
+    def settle(self, v):
+        """after an operation whose Deleter (if any) was the one of variable v: objects that lost their last handle"""
+        for o in range(1, self.nobj + 1):
+            c = self.cnt(o)
+            if c > 0: self.status[o] = "owned"
+            elif self.status[o] == "owned": self.status[o] = "orphan" if self.K[v] == "N" else "dead"
 
 def typed_pair(K, kind, v, w):
     """op token for a two-variable operation v <- w, or None if the C++ would not compile"""
     if K[v] == K[w]: return kind
-    if K[v] == "C" and K[w] == "M": return "X" + kind
+    if K[v] in "CB" and K[w] == "M": return "X" + kind
     return None
 
-def fr_ok(K, v, w): return K[w] != "C" or K[v] == "C"
+def fr_ok(K, v, w): return K[w] in "MN" or K[v] == K[w]
+def oa_ok(K, v, w): return K[v] == "B" or (K[v] in "MN" and K[w] != "B")
+def new_baseonly(K, v, x): return K[v] == "B" and x % 2 == 1
 
 def gen_seq(rng, nops, mode):
-    K = ["MCNM", "MCNM", "MNMN", "MCMC", "MNN", "MN", "MCNMNC", "MCNMNCMN"][rng.below(8)]
+    K = ["MCNB", "MCNM", "MBNB", "MNMN", "MCMC", "MNN", "BMB", "MCNMNB", "MCNBNCMB"][rng.below(9)]
     nv = len(K)
     S = Sim(K); ops = []
     guard = 0
@@ -47,33 +58,45 @@ def gen_seq(rng, nops, mode):
         live = S.live(); dead = S.dead()
         if r < 3:                                         # deliberately invalid lifetime (must be skipped by both sides)
             v = rng.below(nv + 1); w = rng.below(nv)
-            k = rng.choice(["X", "R", "U", "CA", "MA", "SW", "CC", "MC", "N", "DF"])
-            if k in ("X", "R", "U"):
+            k = rng.choice(["X", "R", "U", "CA", "MA", "SW", "CC", "MC", "N", "DF", "AZ", "AD"])
+            if k in ("X", "R", "U", "AZ"):
                 if v < nv and S.v[v] is None: ops.append("%s,%d" % (k, v))
             elif k in ("N",):
-                if v >= nv or S.v[v] is not None: ops.append("N,%d,3" % v)
+                if v >= nv or S.v[v] is not None: ops.append("N,%d,4" % v)
             elif k == "DF":
                 if v >= nv or S.v[v] is not None: ops.append("DF,%d" % v)
+            elif k == "AD":                               # adopt a destroyed or not yet existing object, or onto a live variable
+                gone = [o for o in S.status if S.status[o] == "dead"] + [S.nobj + 1 + rng.below(2)]
+                if v < nv and S.v[v] is None: ops.append("AD,%d,%d" % (v, rng.choice(gone) - 1))
             elif v < nv and (S.v[v] is None or S.v[w] is None) and k in ("CA", "MA", "SW") and K[v] == K[w]:
                 ops.append("%s,%d,%d" % (k, v, w))
             elif v < nv and k in ("CC", "MC") and K[v] == K[w] and (S.v[v] is not None or S.v[w] is None):
                 ops.append("%s,%d,%d" % (k, v, w))
             continue
         # weights by mode: 0 mixed, 1 alias-heavy, 2 unify-heavy, 3 lifecycle churn, 4 raw-pointer sharing across deleter kinds
-        if mode == 1: W = dict(N=6, DF=2, NP=1, FR=8, CC=14, MC=4, CA=18, MA=14, AN=3, R=4, SW=6, U=4, X=8)
-        elif mode == 2: W = dict(N=8, DF=1, NP=1, FR=6, CC=14, MC=3, CA=10, MA=6, AN=4, R=3, SW=3, U=22, X=8)
-        elif mode == 3: W = dict(N=14, DF=5, NP=4, FR=6, CC=10, MC=10, CA=6, MA=6, AN=6, R=6, SW=3, U=4, X=18)
-        elif mode == 4: W = dict(N=8, DF=2, NP=1, FR=26, CC=8, MC=4, CA=8, MA=6, AN=3, R=12, SW=3, U=5, X=14)
-        else: W = dict(N=10, DF=3, NP=2, FR=6, CC=10, MC=7, CA=12, MA=12, AN=5, R=6, SW=6, U=8, X=10)
+        if mode == 1: W = dict(N=6, DF=2, NP=1, FR=8, CC=14, MC=4, CA=18, MA=14, AN=3, R=4, SW=6, U=4, X=8, AD=3, AZ=3, OA=2)
+        elif mode == 2: W = dict(N=8, DF=1, NP=1, FR=6, CC=14, MC=3, CA=10, MA=6, AN=4, R=3, SW=3, U=22, X=8, AD=3, AZ=2, OA=2)
+        elif mode == 3: W = dict(N=14, DF=5, NP=4, FR=6, CC=10, MC=10, CA=6, MA=6, AN=6, R=6, SW=3, U=4, X=18, AD=6, AZ=5, OA=2)
+        elif mode == 4: W = dict(N=8, DF=2, NP=1, FR=22, CC=8, MC=4, CA=8, MA=6, AN=3, R=12, SW=3, U=5, X=14, AD=16, AZ=4, OA=3)
+        else: W = dict(N=10, DF=3, NP=2, FR=6, CC=10, MC=7, CA=12, MA=12, AN=5, R=6, SW=6, U=8, X=10, AD=5, AZ=4, OA=3)
         tot = sum(W.values()); pick = rng.below(tot); k = None
         for name in sorted(W):
             if pick < W[name]: k = name; break
             pick -= W[name]
+        relv = None
         if k in ("N", "DF", "NP"):
             if not dead: continue
             v = rng.choice(dead)
-            if k == "N": x = 1 + rng.below(90); ops.append("N,%d,%d" % (v, x)); S.v[v] = S.fresh()
+            if k == "N": x = 1 + rng.below(90); ops.append("N,%d,%d" % (v, x)); S.v[v] = S.fresh(new_baseonly(K, v, x))
             else: ops.append("%s,%d" % (k, v)); S.v[v] = 0
+        elif k == "AD":
+            if not dead: continue
+            v = rng.choice(dead)
+            cand = [o for o in S.status if S.status[o] != "dead" and (K[v] == "B" or not S.baseonly[o])]
+            orph = [o for o in cand if S.status[o] == "orphan"]
+            if orph and rng.below(100) < 60: cand = orph                       # re-adopt an object left alive by a no-delete handle
+            if not cand: continue
+            o = rng.choice(cand); ops.append("AD,%d,%d" % (v, o - 1)); S.v[v] = o; relv = v
         elif k in ("FR", "CC", "MC"):
             if not dead or not live: continue
             v = rng.choice(dead); w = rng.choice(live)
@@ -87,7 +110,7 @@ def gen_seq(rng, nops, mode):
                 if t is None: continue
                 ops.append("%s,%d,%d" % (t, v, w)); S.v[v] = S.v[w]
                 if k == "MC": S.v[w] = 0
-        elif k in ("CA", "MA", "SW"):
+        elif k in ("CA", "MA", "SW", "OA"):
             if not live: continue
             v = rng.choice(live)
             a = rng.below(100)
@@ -95,7 +118,10 @@ def gen_seq(rng, nops, mode):
             if a < 12: w = v                                         # self
             elif a < 45 and aliases: w = rng.choice(aliases)         # same object through another variable
             else: w = rng.choice(live)
-            if k == "SW":
+            if k == "OA":
+                if not oa_ok(K, v, w) or S.v[v] == 0 or S.v[w] == 0: continue
+                ops.append("OA,%d,%d" % (v, w))
+            elif k == "SW":
                 if K[v] != K[w]: continue
                 ops.append("SW,%d,%d" % (v, w)); S.v[v], S.v[w] = S.v[w], S.v[v]
             else:
@@ -105,26 +131,30 @@ def gen_seq(rng, nops, mode):
                 if S.v[v] != S.v[w]:
                     S.v[v] = S.v[w]
                     if k == "MA": S.v[w] = 0
+                relv = v
         elif k == "AN":
             if not live: continue
-            v = rng.choice(live); ops.append("AN,%d,%d" % (v, 1 + rng.below(90))); S.v[v] = S.fresh()
-        elif k in ("R", "U", "X"):
+            v = rng.choice(live); x = 1 + rng.below(90); ops.append("AN,%d,%d" % (v, x)); S.v[v] = S.fresh(new_baseonly(K, v, x)); relv = v
+        elif k in ("R", "U", "X", "AZ"):
             if not live: continue
             v = rng.choice(live)
             if k == "U":
                 shared = [w for w in live if S.v[w] != 0 and S.cnt(S.v[w]) > 1]
                 if shared and rng.below(100) < 70: v = rng.choice(shared)
                 ops.append("U,%d" % v)
-                if S.v[v] != 0 and S.cnt(S.v[v]) > 1: S.v[v] = S.fresh()
-            elif k == "R": ops.append("R,%d" % v); S.v[v] = 0
+                if S.v[v] != 0 and S.cnt(S.v[v]) > 1: S.v[v] = S.fresh(S.baseonly[S.v[v]] or K[v] == "B")
+            elif k in ("R", "AZ"): ops.append("%s,%d" % (k, v)); S.v[v] = 0
             else: ops.append("X,%d" % v); S.v[v] = None
+            relv = v
+        if relv is not None: S.settle(relv)
     return "seq %s %s" % (K, " ".join(ops))
 
 def alphabet(K):
-    """every well-typed operation token over the variables of kinds K"""
+    """every well-typed operation token over the variables of kinds K (objects created in the exhaustive families are
+    all of the derived type: even payloads)"""
     A = []; n = len(K)
     for v in range(n):
-        A += ["N,%d,7" % v, "DF,%d" % v, "AN,%d,8" % v, "R,%d" % v, "U,%d" % v, "X,%d" % v]
+        A += ["N,%d,6" % v, "DF,%d" % v, "AN,%d,8" % v, "R,%d" % v, "AZ,%d" % v, "U,%d" % v, "X,%d" % v, "AD,%d,0" % v]
         for w in range(n):
             if fr_ok(K, v, w): A.append("FR,%d,%d" % (v, w))
             for k in ("CC", "MC", "CA", "MA"):
@@ -134,16 +164,19 @@ def alphabet(K):
     return A
 
 FAMILIES = [
-    ("MCM", ["N,0,1 CC,2,0 XCC,1,0",          # three aliases of one object
-             "N,0,1 CC,2,0 DF,1",             # two aliases and a null
-             "N,0,1 N,2,2 XCC,1,0",           # two objects, one shared with the const handle
-             "N,0,1 DF,2",                    # unique + null, one dead
-             "N,0,1 N,1,2 N,2,3"]),           # three unique
-    ("MNN", ["N,0,1 FR,1,0",                  # a default and a no-delete handle on the same object
-             "N,0,1 FR,1,0 CC,2,1",           # one default, two no-delete
-             "N,1,1 CC,2,1",                  # no-delete handles only
-             "N,1,1 FR,0,1"]),                # object created under a no-delete handle, default handle from the raw pointer
-    ("MCN", ["N,0,1 XCC,1,0 FR,2,0"]),        # all three kinds on one object
+    ("MCM", ["N,0,2 CC,2,0 XCC,1,0",          # three aliases of one object
+             "N,0,2 CC,2,0 DF,1",             # two aliases and a null
+             "N,0,2 N,2,4 XCC,1,0",           # two objects, one shared with the const handle
+             "N,0,2 DF,2",                    # unique + null, one dead
+             "N,0,2 N,1,4 N,2,6"]),           # three unique
+    ("MNN", ["N,0,2 FR,1,0",                  # a default and a no-delete handle on the same object
+             "N,0,2 FR,1,0 CC,2,1",           # one default, two no-delete
+             "N,1,2 CC,2,1",                  # no-delete handles only
+             "N,1,2 R,1",                     # an object left alive by a no-delete handle (to be adopted again)
+             "N,1,2 FR,0,1"]),                # object created under a no-delete handle, default handle from the raw pointer
+    ("MCN", ["N,0,2 XCC,1,0 FR,2,0"]),        # all three kinds on one object
+    ("MBB", ["N,0,2 XCC,1,0 CC,2,1",          # a derived object through one derived and two base handles
+             "N,1,2 CC,2,1"]),                # a derived object owned through base handles only
 ]
 
 def gen_exhaustive(depth):
@@ -154,7 +187,7 @@ def gen_exhaustive(depth):
             out.append("seq %s %s" % (K, prefix))
             if d == 0: return
             for a in A: rec(prefix + " " + a, d - 1)
-        for p in prefixes: rec(p, depth if K != "MCN" or depth < 3 else 2)
+        for p in prefixes: rec(p, depth if K in ("MCM", "MNN") or depth < 3 else 2)
     return out
 
 # ------------------------------------------------------------------------------------------------ concurrent generator
